@@ -33,6 +33,9 @@ var vC06Whitelists = [][]string{
 	{"*.a.example"},
 	{"a.example:8443", "[::1]"},
 	{"a.example:*", ".evil.com:80"},
+	// entries with an empty host (a trailing comma in the option, "", ":*") allow nothing
+	{".a.example", ""},
+	{":*", "a.example", ":443"},
 }
 
 // vRefAllowed: the whitelist rules read from the documentation, on the host and effective port a
@@ -264,7 +267,8 @@ func vC06Director(t *testing.T, out *vEmitter, r *rand.Rand) {
 				xfh := []string{"", "a.example", "evil.com", "app.example.com"}[r.Intn(4)]
 				xfp := []string{"", "https", "http", "javascript"}[r.Intn(4)]
 				xfu := []string{"", "/fwd", "/oauth2/start", "//evil.com", "/fwd?q=1"}[r.Intn(5)]
-				target := []string{"/", "/page?a=b", "/oauth2/sign_in", "/oauth2/start?x=1", "/deep/page"}[r.Intn(5)]
+				// (including application paths that merely begin with the characters of the proxy prefix)
+				target := []string{"/", "/page?a=b", "/oauth2/sign_in", "/oauth2/start?x=1", "/deep/page", "/oauth2x", "/oauth2-docs/page?x=1", "/oauth2.html", "/oauth2"}[r.Intn(9)]
 				tq := target
 				if rd != "" {
 					sep := "?"
@@ -325,6 +329,11 @@ func vC06Director(t *testing.T, out *vEmitter, r *rand.Rand) {
 					out.Violation("redirect/director-returns-unvalidated", "GetRedirect returned a target that does not pass validation",
 						map[string]interface{}{"whitelist": wi, "got": got})
 				}
+				underPrefix := strings.HasPrefix(req.URL.Path, "/oauth2/")
+				if !proxied && rd == "" && xa == "" && !underPrefix && got != req.URL.RequestURI() {
+					out.Violation("redirect/not-byte-identical", "a plain same-site path requested before login is not where the user lands after login",
+						map[string]interface{}{"requested": req.URL.RequestURI(), "redirect": got})
+				}
 				if !proxied && rd == "" && xa == "" && got != "/" && got != req.URL.RequestURI() {
 					out.Violation("redirect/forwarding-header-used", "with reverse-proxy off the redirect was derived from forwarding headers",
 						map[string]interface{}{"got": got, "target": target})
@@ -337,11 +346,12 @@ func vC06Director(t *testing.T, out *vEmitter, r *rand.Rand) {
 // vC06EndToEnd: start -> callback, sign-in form login and sign-out on the real proxy.
 func vC06EndToEnd(t *testing.T, out *vEmitter) {
 	targets := []string{"/app/page?x=1&y=two", "/a%20b/c%2Fd?q=%3D", "//evil.com", "/\\evil.com", "/\t/evil.com", "https://evil.com/", "https://a.example/ok", "https://a.example@evil.com/",
-		"https://evila.example/", "/..//evil.com", "/ok#frag", "http://a.example:8443/x", "https://sub.a.example/", "/x/./y"}
+		"https://evila.example/", "/..//evil.com", "/ok#frag", "http://a.example:8443/x", "https://sub.a.example/", "/x/./y",
+		"http:///evil.com/x", "https:////evil.com", "/oauth2x/page?y=1", "/reports?from=08:00"}
 	htp := vWriteFile("c06-htpasswd", "htuser:{SHA}"+vB64Std(vSHA1([]byte("htpass")))+"\n")
 	for _, enc := range []bool{false, true} {
 		e := vNewEnv(t, vEnvCfg{oidc: true, mod: func(o *options.Options) {
-			o.WhitelistDomains = []string{".a.example"}
+			o.WhitelistDomains = []string{".a.example", ""} // (with the empty entry a trailing comma in the option leaves)
 			o.EncodeState = enc
 			o.HtpasswdFile = htp
 		}})
